@@ -103,6 +103,15 @@ def issues_from_crashes(ctx, crashes, label):
     return issues
 
 
+def _nontrivial(lines):
+    """an episode is non-trivial if some modifying call succeeded in it"""
+    for ln in lines:
+        if ('"ok":1' in ln and (ln.startswith('{"e":"Set"') or
+                                ln.startswith('{"e":"Del"'))):
+            return True
+    return False
+
+
 def run(ctx, exe, tier, seed, exh_depth=None, rand_cases=None, rand_len=None):
     """Returns (issues, stats)."""
     if exh_depth is None:
@@ -132,6 +141,7 @@ def run(ctx, exe, tier, seed, exh_depth=None, rand_cases=None, rand_len=None):
     stats["episodes"] += res["episodes"]
     stats["tlc_generated"] += res["generated"]
     stats["exh_cases"] = total
+    stats["distinct_nontrivial"] = common.count_distinct_nontrivial(tr, _nontrivial)
 
     paths, crashes = common.run_sharded(
         exe, lambda a, b: ["rand", str(seed), str(a), str(b), str(rand_len)],
@@ -153,6 +163,7 @@ def run(ctx, exe, tier, seed, exh_depth=None, rand_cases=None, rand_len=None):
     stats["episodes"] += res["episodes"]
     stats["tlc_generated"] += res["generated"]
     stats["rand_cases"] = rand_cases
+    stats["distinct_nontrivial"] += common.count_distinct_nontrivial(tr, _nontrivial)
     stats["rand_len"] = rand_len
     return issues, stats
 
